@@ -48,6 +48,8 @@ theorem bisectionUpdate_matches_source (a b gl mid gm : α) :
   simp only [Gen.C11.bisectionTab, List.mem_cons, List.not_mem_nil, or_false] at he
   rcases he with rfl | rfl <;> rfl
 
+set_option linter.unusedTactic false in
+set_option linter.unreachableTactic false in
 /-- `_bracket_converged` is the comparison `(b − a)·|h| ≤ xtol` of the model (traced for both signs of `h`) -/
 theorem bracketConverged_matches_source (a b h xtol : ℝ) :
     let ρ : Nat → ℝ := fun i => match i with | 0 => a | 1 => b | 2 => h | _ => xtol
